@@ -1155,6 +1155,13 @@ let () =
   regl "itemx" op_itemx orc_itemx;
   reg "ui" op_ui orc_ui;
   reg "uipub" op_uipub orc_uipub;
+  reg "uisub" (fun args ->
+      let (name, r) = take_text args in let (arg, r) = take_text r in
+      let (n, r) = take1 r in let (feeds, _) = take_texts n r in
+      [if startup_error (fun a -> List.mem a feeds) name arg then 1 else 0])
+    (fun args impl -> [("state_equals_model", impl = (let (name, r) = take_text args in let (arg, r) = take_text r in
+                                                      let (n, r) = take1 r in let (feeds, _) = take_texts n r in
+                                                      [if startup_error (fun a -> List.mem a feeds) name arg then 1 else 0]))]);
   reg "uihook" (fun _ -> []) (fun _ impl -> match impl with _ :: _ :: st :: _ -> [("every_key_processed", st = 0)] | _ -> []);
   reg "uistress" (fun _ -> []) (fun _ impl -> match impl with u :: o :: st :: _ -> [("frames_under_lock", u = 0); ("frames_one_at_a_time", o = 0); ("every_key_processed", st = 0)] | _ -> []);
   reg "rendernm" (fun _ -> []) no_oracle;
